@@ -54,7 +54,7 @@ func (c *memConn) Read(p []byte) (int, error) {
 		c.cond.Wait()
 	}
 	c.waiting = false
-	if len(c.in) == 0 {
+	if c.closed || len(c.in) == 0 {
 		return 0, io.EOF
 	}
 	n := copy(p, c.in)
@@ -75,6 +75,7 @@ func (c *memConn) Write(p []byte) (int, error) {
 func (c *memConn) Close() error {
 	c.mu.Lock()
 	c.closed = true
+	c.waiting = false // a reader parked in Read is about to wake up: the connection is not quiescent
 	c.cond.Broadcast()
 	c.mu.Unlock()
 	return nil
@@ -82,6 +83,10 @@ func (c *memConn) Close() error {
 
 func (c *memConn) feed(b []byte) {
 	c.mu.Lock()
+	if c.closed {
+		c.mu.Unlock()
+		return
+	}
 	c.in = append(c.in, b...)
 	c.waiting = false
 	c.cond.Broadcast()
